@@ -215,7 +215,13 @@ func settingToGo(s *setting) interface{} {
 
 func layerToGo(l map[string]*setting) map[string]interface{} {
 	m := map[string]interface{}{}
-	for p, s := range l {
+	ps := make([]string, 0, len(l))
+	for p := range l {
+		ps = append(ps, p)
+	}
+	sort.Strings(ps)
+	for _, p := range ps {
+		s := l[p]
 		if i := strings.IndexByte(p, '.'); i >= 0 {
 			sub, _ := m[p[:i]].(map[string]interface{})
 			if sub == nil {
@@ -306,7 +312,93 @@ func (e *E) Setup() {
 		}
 		e.res = append(e.res, r)
 	}
+	// most referenced names should be known to some layer: a run in which
+	// everything is unresolvable explores little
+	for _, name := range e.referenced() {
+		// ("z" stays unknown on purpose; "s" is the name of a dictionary, defining it as a
+		// primitive next to "s.x" in the same layer would be a contradictory input)
+		if e.known(name) || name == "z" || name == "s" || !t.Chance(2, 3, "define-referenced") {
+			continue
+		}
+		switch t.Choose(3, "define-layer") {
+		case 0:
+			// ("s" is the name of the nested dictionary: never a primitive)
+			if name != "s" && (!strings.Contains(name, ".") || strings.HasPrefix(name, "s.")) {
+				if _, lit := e.root["s"]; !(lit && strings.HasPrefix(name, "s.")) {
+					e.root[name] = &setting{lit: e.prim()}
+				}
+			}
+		case 1:
+			if len(e.envs) == 0 {
+				e.envs = append(e.envs, map[string]*setting{})
+			}
+			e.envs[t.Choose(len(e.envs), "define-env")][name] = &setting{lit: e.prim()}
+		default:
+			if len(e.res) == 0 {
+				e.res = append(e.res, &resolver{store: map[string]string{}})
+			}
+			e.res[t.Choose(len(e.res), "define-res")].store[name] = e.tok()
+		}
+	}
 	e.build()
+}
+
+// referenced lists the literal names the root's expressions refer to.
+func (e *E) referenced() []string {
+	seen := map[string]bool{}
+	var walk func(x Expr)
+	name := func(n Name) {
+		if n.Nested != nil {
+			walk(n.Nested)
+			return
+		}
+		seen[n.Path] = true
+	}
+	walk = func(x Expr) {
+		switch v := x.(type) {
+		case *Ref:
+			name(v.Name)
+		case *Op:
+			name(v.Name)
+			walk(v.Arg)
+		case Cat:
+			for _, p := range v {
+				walk(p)
+			}
+		}
+	}
+	for _, k := range e.settingNames() {
+		if e.root[k].expr != nil {
+			walk(e.root[k].expr)
+		}
+	}
+	out := make([]string, 0, len(seen))
+	for k := range seen {
+		out = append(out, k)
+	}
+	sort.Strings(out)
+	return out
+}
+
+// known: is the name defined in some layer?
+func (e *E) known(name string) bool {
+	if s, v := lookupLayer(e.root, name); s != nil || v != nil {
+		return true
+	}
+	if _, ok := e.subDict(e.root, name); ok {
+		return true
+	}
+	for _, l := range e.envs {
+		if s, v := lookupLayer(l, name); s != nil || v != nil {
+			return true
+		}
+	}
+	for _, r := range e.res {
+		if _, ok := r.store[name]; ok {
+			return true
+		}
+	}
+	return false
 }
 
 func (e *E) build() {
